@@ -1,6 +1,7 @@
 import PPModel.Mod.Sugar
 import PPProofs.Lemmas.ParseAdv
 import PPProofs.Lemmas.ParseBound
+import PPProofs.Lemmas.ParseStrict
 /-
   Termination of the parse model on non-recursive grammars, with an explicit fuel bound.
 
@@ -222,44 +223,6 @@ theorem orPass1_nohang {p : P} (nameLen : Nat → Nat) (slen loc : Nat) :
         · exact ih' _
     | idx => exact ih' _
     | hang => exact absurd h0 this
-
-/-- the candidates collected by Or's first pass are alternatives of the Or -/
-theorem orPass1_cands {p : P} (nameLen : Nat → Nat) (slen loc : Nat) :
-    ∀ es a a', orPass1 p nameLen slen loc es a = some a' → ∀ m ∈ a'.cands, m ∈ a.cands ∨ m.2 ∈ es := by
-  intro es
-  induction es with
-  | nil => intro a a' h m hm; simp [orPass1] at h; subst h; exact Or.inl hm
-  | cons x es ih =>
-    intro a a' h m hm
-    unfold orPass1 at h
-    cases h0 : tryParse p x loc true false with
-    | ok l ts =>
-      rw [h0] at h; simp only at h
-      rcases ih _ _ h m hm with h1 | h1
-      · simp only [List.mem_append, List.mem_singleton] at h1
-        rcases h1 with h1 | h1
-        · exact Or.inl h1
-        · subst h1; exact Or.inr (by simp)
-      · exact Or.inr (List.mem_cons_of_mem _ h1)
-    | fail c l =>
-      rw [h0] at h; simp only at h
-      split at h
-      · rcases ih _ _ h m hm with h1 | h1
-        · exact Or.inl h1
-        · exact Or.inr (List.mem_cons_of_mem _ h1)
-      · split at h
-        · rcases ih _ _ h m hm with h1 | h1
-          · exact Or.inl h1
-          · exact Or.inr (List.mem_cons_of_mem _ h1)
-        · rcases ih _ _ h m hm with h1 | h1
-          · exact Or.inl h1
-          · exact Or.inr (List.mem_cons_of_mem _ h1)
-    | idx =>
-      rw [h0] at h; simp only at h
-      rcases ih _ _ h m hm with h1 | h1
-      · exact Or.inl h1
-      · exact Or.inr (List.mem_cons_of_mem _ h1)
-    | hang => rw [h0] at h; simp at h
 
 theorem orPass2_nohang {p : P} (loc : Nat) :
     ∀ ms, (∀ m ∈ ms, NH p m.2) → ∀ longest mx, orPass2 p loc ms longest mx ≠ .inl .hang := by
